@@ -97,9 +97,13 @@ def build(u):
         with u.mod("key_keeper_wrapper", uses="use crate::common::result::Result;\nuse crate::proxy::authorization_rules::ComputedAuthorizationItem;\nuse crate::key_keeper::key::Key;"):
             u.placeholder_ext(kkw, ["KeyKeeperSharedState"], "vx_ph_kkw")
             with u.impl_(kkw, "KeyKeeperSharedState"):
+                # C10: ONE GetKey round-trip answers with one key record (guid and value latched together; the actor arm is decided
+                # in unit `actors`); the single-field getters give NO such fact, so a pair assembled from two messages cannot
+                # be shown to be latched together
                 for f in ("get_current_key", "get_current_key_value", "get_current_key_guid"):
                     if kkw.has_item("KeyKeeperSharedState::" + f):
-                        u.take_fn(kkw, "KeyKeeperSharedState::" + f, external_body=True)
+                        u.take_fn(kkw, "KeyKeeperSharedState::" + f, external_body=True,
+                                  contract=("        ensures r matches Ok(Some(k)) ==> key_record(k),\n" if f == "get_current_key" else ""))
         with u.mod("agent_status_wrapper", uses="use crate::common::result::Result;\nuse crate::proxy::proxy_summary::ProxySummary;"):
             u.placeholder_ext(asw, ["AgentStatusSharedState"], "vx_ph_asw")
             with u.impl_(asw, "AgentStatusSharedState"):
@@ -162,7 +166,9 @@ def build(u):
                           ghost="Ghost(url): Ghost<hyper::Uri>, Ghost(kk): Ghost<KeyKeeperSharedState>, Ghost(orig): Ghost<FwdSpec>",
                           contract="""
         requires may_relay(*self, url, kk),    // @C01.send_request.only_attributed_and_authorized
+                 root_only_respected(*self),   // @C03.send_request.never_for_non_elevated_wireserver_gaplugin_caller_nor_self
                  fwd_ok(request, orig),        // @C05+C14+C15.send_request.host_receives_client_request_with_proxy_headers
+                 key_id_names_signing_key(request, orig),   // @C10.send_request.key_id_names_the_key_that_made_the_mac
 """)
             u.take(pc, "HttpConnectionContext", "struct")
             with u.impl_(pc, "HttpConnectionContext"):
@@ -182,7 +188,9 @@ def build(u):
                           ghost_calls=[("send_request", None, "Ghost(self.url), Ghost(kk), Ghost(orig)")],
                           contract="""
         requires may_relay(self.tcp_connection_context, self.url, kk),    // @C01.HttpConnectionContext_send_request.only_attributed_and_authorized
+                 root_only_respected(self.tcp_connection_context),   // @C03.HttpConnectionContext_send_request.never_for_non_elevated_wireserver_gaplugin_caller_nor_self
                  fwd_ok(request, orig),        // @C05+C14+C15.HttpConnectionContext_send_request.host_receives_client_request_with_proxy_headers
+                 key_id_names_signing_key(request, orig),   // @C10.HttpConnectionContext_send_request.key_id_names_the_key_that_made_the_mac
 """)
 
         with u.mod("proxy_server", uses="use tower_http::limit::RequestBodyLimitLayer;", auto_uses=ps):
@@ -279,6 +287,7 @@ proof {
                           contract="""
         requires
             may_relay(http_connection_context.tcp_connection_context, http_connection_context.url, self.key_keeper_shared_state),  // @C01.handle_request_with_signature.only_attributed_and_authorized
+            root_only_respected(http_connection_context.tcp_connection_context),  // @C03.handle_request_with_signature.never_for_non_elevated_wireserver_gaplugin_caller_nor_self
             req_method(request) == orig.method,   // @C14.handle_request_with_signature.method_unchanged
             req_uri(request) == orig.uri,         // @C14.handle_request_with_signature.uri_unchanged
             body_bytes(req_body(request)) == orig.body,   // @C14+C15.handle_request_with_signature.body_is_the_clients
@@ -327,6 +336,14 @@ let ghost orig = fwd_spec_of(request, if tcp_connection_context.claims is Some {
                                dict(name="vx_e9_kk_clone", local=True, body="k.clone()")),
                           ],
                           e6=[("host_claims", None, ["$@", "bool_text($)"])],
+                          # each property's precondition of the two relaying calls is asserted on its own just before the call, so that a
+                          # failure is reported under every property it concerns (Verus reports one failing requires-clause per call)
+                          hints=[(".handle_request_with_signature(", None, "before", """proof {
+    assert(root_only_respected(http_connection_context.tcp_connection_context));  // @C03.handle_new_http_request.relays_signed_never_for_non_elevated_wireserver_gaplugin_caller_nor_self
+}"""),
+                                 ("http_connection_context.send_request(", None, "before", """proof {
+    assert(root_only_respected(http_connection_context.tcp_connection_context));  // @C03.handle_new_http_request.relays_unsigned_never_for_non_elevated_wireserver_gaplugin_caller_nor_self
+}""")],
                           contract="""
         ensures
             r is Ok,
